@@ -21,6 +21,7 @@
 #define DATASKETCHES_SERDE_HPP_
 
 #include <cstring>
+#include <algorithm>
 #include <iostream>
 #include <memory>
 #include <string>
@@ -162,8 +163,9 @@ struct serde<std::string> {
         is.read((char*)&length, sizeof(length));
         if (!is.good()) { break; }
         std::string str;
-        str.reserve(length);
-        for (uint32_t j = 0; j < length; j++) {
+        // the length is not validated yet: do not let a corrupted value trigger a multi-gigabyte allocation up front
+        str.reserve(std::min<uint32_t>(length, 1 << 16));
+        for (uint32_t j = 0; j < length && is.good(); j++) { // stop at the end of a truncated stream
           str.push_back(static_cast<char>(is.get()));
         }
         if (!is.good()) { break; }
